@@ -139,6 +139,9 @@ def gen_scenario(rng, k, force=None):
                                                      ("from_series", "daily")])
     if period == "reporting":
         sc["observed_column"] = rng.random() < 0.5
+    if fam == "daily" and sc["temp_source"] == "hourly" and L.has_meter(sc) and rng.random() < 0.3:
+        # the daily meter reads sit at another hour than the first (midnight) row of the hourly temperature
+        sc["read_hour"] = rng.choice([6, 7, 12, 18])
     if fam == "billing":
         return gen_billing(rng, sc)
     months = cell_months(sc)
@@ -150,6 +153,8 @@ def gen_scenario(rng, k, force=None):
          "ends", "random", "clean", "month_usage", "month_ghi"])
     if fam == "daily" and period == "reporting" and sc.get("observed_column") and not force.get("target") and rng.random() < 0.2:
         target = "rep_partial"       # usage on the first part of the reporting period only
+    if target == "nodata":
+        sc.pop("read_hour", None)      # without any read the class falls back to the midnight grid
     delta = rng.choice([-1, 0, 0, 1])
     sc["target"] = [target, delta]
     n_star = ceil_div(9 * T, 10)                     # fewest valid whole days that are not "under 90 %"
@@ -232,6 +237,8 @@ def gen_scenario(rng, k, force=None):
         ds = L.day_starts(sc, extra=1)
         first = {}
         j = 0
+        while j < len(hs) and hs[j] < ds[0]:
+            j += 1
         for i in range(sc["span"]):
             first[i] = j
             while j < len(hs) and hs[j] < ds[i + 1]:
